@@ -6,13 +6,13 @@
 //!   recorded balance ≥ liquidity + swap-impact + claimable-fee amounts,
 //!   recorded balance ≥ Σ position collateral in that token,
 //! and per vault: Σ over markets of recorded balances of that token ≤ SPL vault amount.
-use crate::sim::{Sim, StepRec};
+use crate::sim::{action_state, ActKind, Op, Sim, StepRec};
 use crate::world::{exchange::load, World};
 use gmsol_model::{Balance, PoolKind};
 use gmsol_store::states::{HasMarketMeta, Market};
 use hostsvm::token;
 use std::collections::BTreeMap;
-use vcommon::{json, monitor::run_shards, Args, Monitor};
+use vcommon::{json, monitor::{guard, run_shards}, Args, Monitor};
 
 /// Returns a list of `(signature class, detail)` for every solvency rule broken in `w`.
 pub fn solvency_violations(w: &World) -> Vec<(&'static str, String)> {
@@ -74,10 +74,12 @@ pub fn solvency_violations(w: &World) -> Vec<(&'static str, String)> {
 pub fn run(args: &Args) -> Option<i32> {
     let mut mon = Monitor::new(
         args,
-        "random multi-market histories (4 markets sharing the SOL/USDC vaults, one single-token market; deposits, \
-         withdrawals, shifts, swap/position orders with swap paths, liquidations, ADL, fee claims, keeper transfers, \
-         price moves, clock warps, fault ops) executed through the real store instructions in hostsvm; the solvency \
-         oracle runs after every successful transaction. non-trivial = a successful transaction that changed a market \
+        "random multi-market histories (4 markets sharing the SOL/USDC vaults, one single-token market, a GLV over the three \
+         SOL/USDC markets; deposits, withdrawals, shifts, swap/position orders with swap paths, GLV deposits / withdrawals / \
+         shifts, liquidations, ADL (driven: price moves in favour of a side, lowered pnl-factor limits, update_adl_state, \
+         auto_deleverage of a profitable position), fee claims, keeper transfers, price moves, clock warps, fault ops) \
+         executed through the real store instructions in hostsvm; the solvency oracle runs after every successful \
+         transaction (GLV instructions included). non-trivial = a successful transaction that changed a market \
          account or a vault; distinct = hash of (operation kind, which markets / vaults changed)",
     );
     mon.assume("hostsvm runtime (no compute/heap limits); SPL token programs are the real processors");
@@ -90,12 +92,22 @@ pub fn run(args: &Args) -> Option<i32> {
             m.violation(&format!("C22:bootstrap:{}", v.0), json!({"detail": v.1}));
         }
         for step in 0..steps {
-            let rec: StepRec = sim.step();
+            // program panics are caught by hostsvm (failed transaction); `guard` only keeps them quiet
+            let rec: StepRec = match guard(|| sim.step()) {
+                Ok(r) => r,
+                Err(e) => {
+                    m.inconclusive(&format!("harness: step aborted by panic: {e}"));
+                    break;
+                }
+            };
             m.count(&format!("op_{}", rec.op.name()));
             match &rec.result {
                 Some(Ok(_)) => m.count(&format!("ok_{}", rec.op.name())),
                 Some(Err((e, _))) => {
                     m.count(&format!("err_{}", rec.op.name()));
+                    if e.is_panic() {
+                        m.count("panics");
+                    }
                     if std::env::var("VERIF_ERRSTAT").is_ok() {
                         let s = format!("{e:?}");
                         let s: String = s.chars().take(60).collect();
@@ -108,6 +120,26 @@ pub fn run(args: &Args) -> Option<i32> {
                 continue;
             }
             m.eval();
+            // what kind of action did a successful execution run (GLV executions perform market
+            // deposits / withdrawals / shifts underneath), and did it complete or cancel?
+            if let Op::Execute { action, .. } = &rec.op {
+                let a = &sim.actions[*action];
+                let kind = match a.kind {
+                    ActKind::Deposit => "deposit",
+                    ActKind::Withdrawal => "withdrawal",
+                    ActKind::Shift => "shift",
+                    ActKind::Order => "order",
+                    ActKind::GlvDeposit => "glv_deposit",
+                    ActKind::GlvWithdrawal => "glv_withdrawal",
+                    ActKind::GlvShift => "glv_shift",
+                };
+                let outcome = match action_state(&sim.w.svm, a.kind, &a.addr) {
+                    Some(s) if s.is_completed() => "completed",
+                    Some(s) if s.is_cancelled() => "cancelled",
+                    _ => "other",
+                };
+                m.count(&format!("ok_execute_{kind}_{outcome}"));
+            }
             // which markets / vaults changed?
             let mut changed = vec![];
             for (i, mi) in sim.w.markets.iter().enumerate() {
@@ -146,5 +178,10 @@ pub fn run(args: &Args) -> Option<i32> {
     drop(quiet);
     mon.require("state_changing_tx", 500);
     mon.require("ok_execute", 100);
+    mon.require("ok_execute_glv_deposit_completed", 10);
+    mon.require("ok_execute_glv_withdrawal_completed", 5);
+    mon.require("ok_execute_glv_shift_completed", 5);
+    mon.require("ok_adl", 30);
+    mon.require("ok_liquidate", 3);
     Some(mon.finish())
 }
